@@ -233,6 +233,7 @@ fn pls_params() -> Vec<Param> {
         // the number of components is validated against the data inside fit (errors.rs:12), not by check()
         free("n_components", "linfa-pls/src/errors.rs:12 \"Number of components should be in [1, {upperbound}]\" (data dependent, raised by fit)", vec![(Sym::U(1), "one"), (Sym::U(2), "two")]),
         free("algorithm", "linfa-pls/src/hyperparams.rs:147 enum", vec![(Sym::S("nipals"), "nipals"), (Sym::S("svd"), "svd")]),
+        free("scale", "linfa-pls/src/hyperparams.rs:141 bool", vec![(Sym::B(true), "default"), (Sym::B(false), "false")]),
     ]
 }
 
@@ -264,6 +265,14 @@ macro_rules! pls_builder {
             let ds = Dataset::new(x3, y2);
             let base = || $ty::<F>::params(case.u("n_components") as usize);
             let set = setter(&base, |mut p, c| { if c.moved(&["tolerance"]) { p = p.tolerance(F::cast(c.f("tolerance"))); } if c.moved(&["max_iter"]) { p = p.max_iterations(c.u("max_iter") as usize); } if c.moved(&["algorithm"]) { p = p.algorithm(if c.s("algorithm") == "svd" { Algorithm::Svd } else { Algorithm::Nipals }); } p });
+            let set = setter(&base, |p, c| {
+                let p = set(p, c);
+                if c.moved(&["scale"]) {
+                    p.scale(c.b("scale"))
+                } else {
+                    p
+                }
+            });
             let make = || set(base(), case);
             let ops = vec![op(
                 &make,
@@ -319,6 +328,7 @@ pub fn tsne_spec() -> BuilderSpec {
                 ],
             },
             free("max_iter", "linfa-tsne/src/hyperparams.rs:123 no documented range", vec![(Sym::U(0), "zero"), (Sym::U(20), "small")]),
+            free("preliminary_iter", "linfa-tsne/src/hyperparams.rs:130 optional, no documented range (constructor-time choice of the point: the setter cannot unset it)", vec![(Sym::OptU(None), "unset"), (Sym::OptU(Some(5)), "five")]),
         ],
         relation: no_relation,
         err_param: |e| {
@@ -336,7 +346,13 @@ pub fn tsne_spec() -> BuilderSpec {
 
 fn tsne<F: Float>(case: &Case, spec: &BuilderSpec, out: &mut Outcome) {
     let data = Array2::from_shape_fn((10, 3), |(i, j)| F::cast(((i * (j + 2) * 7) % 11) as f64 * 0.25 + if i >= 5 { 4.0 } else { 0.0 }));
-    let base = || TSneParams::<F, _>::embedding_size_with_rng(2, Xoshiro256Plus::seed_from_u64(42));
+    let base = || {
+        let p = TSneParams::<F, _>::embedding_size_with_rng(2, Xoshiro256Plus::seed_from_u64(42));
+        match case.ou("preliminary_iter") {
+            Some(n) => p.preliminary_iter(n as usize),
+            None => p,
+        }
+    };
     let set = setter(&base, |mut p, c| { if c.moved(&["perplexity"]) { p = p.perplexity(F::cast(c.f("perplexity"))); } if c.moved(&["approx_threshold"]) { p = p.approx_threshold(F::cast(c.f("approx_threshold"))); } if c.moved(&["max_iter"]) { p = p.max_iter(c.u("max_iter") as usize); } p });
     let make = || set(base(), case);
     // t-SNE implements Transformer on the unchecked builder itself (linfa-tsne/src/lib.rs:62), both forms
